@@ -106,6 +106,8 @@ def run(rep):
     rep.guard(q5, rep, w)
     rep.guard(q6, rep, w)
     rep.guard(q7, rep, w)
+    import core_yl
+    rep.guard(core_yl.q8, rep, w)  # the adapters (map / filter / collect / reduce) are Yarel source compiled at start-up: protocol typestate over that source
     import c02
     rep.guard(c02.p10, rep, w)    # iterating a collection that the loop body shrinks ends the loop; it does not panic
     import c05
